@@ -244,8 +244,8 @@ func (u *Unit) evalModifies(mods []BoundMod, envFor func(fromIface bool) *Env) (
 				cr := CellReg{Arr: enc.Sel("sl_arr", sl)}
 				if x.Name == "tail" {
 					// the unused capacity behind the slice
-					cr.Lo = Add(enc.Sel("sl_off", sl), enc.Sel("sl_len", sl))
-					cr.Hi = Add(enc.Sel("sl_off", sl), enc.Sel("sl_cap", sl))
+					cr.Lo = enc.Sel("sl_len", sl)
+					cr.Hi = enc.Sel("sl_cap", sl)
 				}
 				get(c.Name).Cells = append(get(c.Name).Cells, cr)
 			case "whole":
